@@ -79,6 +79,7 @@ type World struct {
 
 	Clients []*Client
 
+	ledger       *ledger
 	lastActivity time.Duration // last non-sync-clock traffic in either direction
 	gauge0       gauges
 }
@@ -109,7 +110,7 @@ func NewWorld(cfg WorldCfg) *World {
 	if cfg.Summary == 0 {
 		cfg.Summary = time.Minute
 	}
-	w := &World{cfg: cfg}
+	w := &World{cfg: cfg, ledger: newLedger()}
 	w.sim = simrt.New(simrt.Config{
 		Seed: cfg.Seed, Policy: cfg.Policy, Sticky: cfg.Sticky, PCTDepth: cfg.PCTDepth, PCTLen: cfg.PCTLen,
 		StallProb: cfg.StallProb, StallMax: cfg.StallMax, SortedMaps: cfg.SortedMaps, Trace: cfg.Trace, MaxSteps: cfg.MaxSteps,
